@@ -20,7 +20,7 @@ PLANS["C02"] = {
 }
 
 PLANS["C03"] = {
-    "quick": [J("qos2out", "f=1,c=1", 60), J("qos2out", "f=2", 60), J("qos2out", "c=2,s=1", 60), J("pubflowvol", "f=1,s=1", 40)],
+    "quick": [J("qos2out", "f=1,c=1", 60), J("qos2out", "f=2", 60), J("qos2out", "c=2,s=1", 60), J("pubflowvol", "f=1,s=1", 40), J("restartwrap", "c=2", 40)],
     "thorough": [J("qos2out", "f=3,c=2,p=1", 900)],
 }
 PLANS["C05"] = {
